@@ -33,6 +33,7 @@ int main(int argc, char** argv) {
   Supply sup; sup.init();
   for (uint64_t s = g_args.seed0; s < g_args.seed0 + g_args.n; s++) {
     begin_case(s);
+    ND_CASE_GUARD();
     Rng r(s);
     mg::GenOpts go;
     std::string mdesc;
